@@ -6,7 +6,7 @@ import EmmyVerif.Model.Ty
 references, arrays, `table<K,V>`, optionals (`Union[T, nil]`) and parameterless function types: a
 template reference takes the (whole) target type as its candidate unless it already has one
 (`TypeSubstitutor::infer_value`); arrays / tables / functions descend into the matching component;
-a union pattern matches every member against the whole target.
+a union pattern with a `nil` member (`T?`) matches its other member against the target without `nil`.
 `instantiate`: `instantiate_type_generic` — template references are replaced by their candidate,
 resolved with `LiteralPolicy::FreshWidening` (`widen_literal_type` on the candidate itself).
 -/
@@ -35,12 +35,21 @@ def Subst.infer (s : Subst) (i : Nat) (a : GTy) : Subst :=
   | some _ => s
   | none => s ++ [(i, a)]
 
+/-- the target an optional pattern (`T?`) is matched against: the argument without its `nil`
+(`union_tpl_pattern_match`; an argument that is only `nil`, or has no `nil`, is kept) -/
+def stripNil : GTy → GTy
+  | .opt x => x
+  | .base (.union ms) =>
+    let rest := ms.toList.filter (fun t => t ≠ Ty.tNil)
+    if rest.isEmpty ∨ rest.length = ms.toList.length then .base (.union ms) else .base (fromVec rest)
+  | g => g
+
 /-- `tpl_pattern_match(pattern, target)` -/
 def tplMatch : GTy → GTy → Subst → Subst
   | .v i, a, s => s.infer i a
   | .array p, .array a, s => tplMatch p a s
   | .tgen pk pv, .tgen ak av, s => tplMatch pv av (tplMatch pk ak s)
-  | .opt p, a, s => tplMatch p a s
+  | .opt p, a, s => tplMatch p (stripNil a) s
   | .fn pr, .fn ar, s => tplMatch pr ar s
   | _, _, s => s
 
